@@ -60,10 +60,7 @@ def gen_macros(repo):
         raise Undecided('fail.rs: no debug! statement found to delete (macro shape changed)')
     out = ['// generated from iceoryx2-log/log/src/fail.rs: %d debug!(..) statements deleted' % n,
            src2,
-           '// fatal_panic!: logging dropped, diverges through the prelude fn `verif_fatal_panic` (requires false)',
-           'macro_rules! fatal_panic {',
-           '    ($($t:tt)*) => { crate::verif_fatal_panic() };',
-           '}',
+           _gen_fatal_panic(repo),
            'macro_rules! warn { ($($t:tt)*) => { } }',
            'macro_rules! error { ($($t:tt)*) => { } }',
            'macro_rules! debug { ($($t:tt)*) => { } }',
@@ -71,6 +68,21 @@ def gen_macros(repo):
            'macro_rules! info { ($($t:tt)*) => { } }',
            ]
     return '\n'.join(out) + '\n'
+
+
+def _gen_fatal_panic(repo):
+    """fatal_panic! of the current tree: the logger call of each arm is deleted and `core::panic!(..)` becomes a call of the
+    prelude fn `verif_fatal_panic()` (requires false): reaching it is an obligation failure; the `when $call` arm still
+    evaluates the call and yields its Ok value."""
+    p = os.path.join(repo, 'iceoryx2-log/log/src/log.rs')
+    text = open(p).read()
+    it = rsrc.find_item(text, [], 'macro fatal_panic')
+    src = it.full
+    src, n1 = re.subn(r'(?m)^[ \t]*\$crate::__internal_print_log_msg\(.*\);[ \t]*\n', '', src)
+    src, n2 = re.subn(r'core::panic!\([^;]*\);', 'crate::verif_fatal_panic();', src)
+    if n1 == 0 or n2 == 0:
+        raise Undecided('log.rs: fatal_panic! macro shape changed (%d logger calls, %d panics)' % (n1, n2))
+    return '// generated from iceoryx2-log/log/src/log.rs: %d logger calls deleted, %d panics routed to verif_fatal_panic()\n%s' % (n1, n2, src)
 
 
 def _kv(line):
